@@ -239,6 +239,9 @@ def check(prop: str, tier: str, light: bool = False) -> Report:
     rep = Report(prop=prop, tier=tier, level="model_checking")
     rng = random.Random(seed() * 7919 + 17)
     mc = model_check(tier, light)
+    # symbolic: M agrees with the reference for arbitrary integer thresholds, windows and times
+    from .apalache import breaker_symbolic
+    sym = breaker_symbolic(tier)
     configs, edges, exp = export_graph(tier, light)
     deep = simulate_graph(tier, configs)
     n_exh = len(edges)
@@ -279,7 +282,7 @@ def check(prop: str, tier: str, light: bool = False) -> Report:
         "nonconformant_traces": nonconf,
         "trace_check_states": verdicts[0]["_states"] if verdicts else 0,
         "exhaustive": True,
-        "canary": "corrupted trace rejected",
+        "canary": "corrupted trace rejected", "symbolic": sym,
         "samples": samples + [{"cfg": rand[0]["cfg"],
                                "ops": [[o["op"], o["k"], o["t"], o["allowed"], o["ev"], o["state"]]
                                        for o in rand[0]["ev"][:12]]}],
